@@ -128,6 +128,7 @@ type Outcome struct {
 	Panic   *PanicInfo
 	Timeout bool
 	Err     string // constructor error
+	Skipped bool   // not run (S4 packages run default parameter variants only)
 }
 
 func panicKind(msg string) string {
